@@ -116,6 +116,23 @@ class Prog:
         it = self.iter(es)
         return self.apply(it, self.fnvalue("py:" + kind))
 
+    def dsclass(self, name: str, members: Sequence[Tuple[str, int]], bases: Sequence[int] = (), annotated: Sequence[str] = ()) -> int:
+        """a dataset class (`@datasetclass class name(*bases): member = expression ...`).  For the model a dataset class
+        IS the tuple of its effective members (own ones and those inherited from dataset-class bases, a redefinition
+        replacing the inherited one) in `dir()` order — the node is `Iter(members...).apply(tuple)` carrying a `dsclass`
+        field; the runner builds the real class from that field and reports an instance as the tuple of its members."""
+        eff: Dict[str, int] = {}
+        for b in bases:
+            eff.update(dict(self.node(b)["dsclass"]["effective"]))
+        eff.update(dict(members))
+        order = sorted(eff)
+        it = self._node("iter", es=[eff[k] for k in order], h=1)
+        fv = self._node("value", v=fn("py:tuple"), h=1)
+        nid = self._node("apply", e=it, f=fv, via="apply")
+        self.nodes[-1]["dsclass"] = {"name": name, "members": [[n, i] for n, i in members], "bases": list(bases),
+                                     "annotated": list(annotated), "effective": [[k, eff[k]] for k in order]}
+        return nid
+
     def map(self, e: int, its: Sequence[Tuple[str, int]]) -> int:
         return self._node("map", e=e, its=[[n, i] for n, i in its])
 
